@@ -439,6 +439,13 @@ def write_evidence(mod, ctx, nviol, known_hit, infra_error):
     }
     if infra_error:
         cov["infrastructure_error"] = infra_error
+    if not st.discharged:
+        # nothing was discharged (the proofs did not build on this tree): the proof-level keys would not validate
+        # (discharged must be >= 1), so report the run through the generic counts instead and say so
+        cov.pop("discharged")
+        cov["discharged_obligations"] = 0
+        cov["explanation"] = "no proof obligation could be discharged on this tree (see broken_obligations); the counts describe the failing-input search"
+
     ev = {
         "property_id": ctx.prop, "tier": ctx.tier, "seed": ctx.seed, "level": "proof",
         "coverage": cov,
